@@ -125,6 +125,7 @@ pub fn check(case: &Case) -> Verdict {
     let cfg = &case.cfg;
     let cdoc = normalise_doc(cfg, &case.doc);
     let plain = cdoc.to_document(&cfg.id0.0, case.xref_stream);
+    let _rng = FixedLopdfRng::new(crate::engine::fnv64(&serde_json::to_vec(case).unwrap_or_default()));
     let state = match no_panic("EncryptionState::try_from", || cfg.lopdf_state(&plain))? {
         Ok(s) => s,
         Err(e) => {
